@@ -48,6 +48,7 @@ func (e *Engine) verifyFunc(f *ssa.Function, ct *Contract) *FnVC {
 		v := fv.unknown(st, p.Type(), "p_"+sanitize(p.Name()))
 		in.vals[p] = v
 		in.params = append(in.params, v)
+		fv.paramVals = append(fv.paramVals, v)
 		if i == 0 && f.Signature.Recv() != nil && v.K == KLoc {
 			fv.assume("true", not(eq(v.T, "LNil")))
 		}
@@ -109,6 +110,19 @@ func (e *Engine) verifyFunc(f *ssa.Function, ct *Contract) *FnVC {
 		}
 	} else if len(ct.Assigns) > 0 {
 		fv.frame = ce.regions(ct.Assigns)
+	} else if !ct.AssignsSet {
+		// no frame of its own (e.g. a synthesised contract): the function is bound by the
+		// frames of the interface methods it implements; if those allow any write, so may it
+		ims := fv.eng.refinedBy(f)
+		anyAll := len(ims) > 0
+		for _, im := range ims {
+			if !im.ct.AssignsAny {
+				anyAll = false
+			}
+		}
+		if anyAll {
+			fv.frameAny = true
+		}
 	}
 	if ce.err != nil {
 		fv.specErr(ce.err)
@@ -147,6 +161,7 @@ func (fv *FnVC) finishReturn(in *inst, r retInfo, suffix string) {
 	vs := r.vals
 	sig := f.Signature
 	pos := r.pos
+	fv.retVals, fv.retState = vs, st
 	if !pos.IsValid() {
 		pos = f.Pos()
 	}
@@ -324,11 +339,14 @@ func (fv *FnVC) obligeClause(ce *cenv, id, kind string, props []string, guard, g
 			o.Pos = fmt.Sprintf("%s:%d", strings.TrimPrefix(p.Filename, fv.eng.repo+"/"), p.Line)
 			o2.Pos = o.Pos
 		}
+		o.results, o.post = fv.retVals, fv.retState
+		o2.results, o2.post = fv.retVals, fv.retState
 		fv.obls = append(fv.obls, o2)
 		fv.assume(guard, or(w, goal))
 		return
 	}
-	fv.oblige(id, kind, props, guard, goal, clause, pos)
+	o := fv.oblige(id, kind, props, guard, goal, clause, pos)
+	o.results, o.post = fv.retVals, fv.retState
 }
 
 func frameKeyName(k string) string {
